@@ -126,32 +126,57 @@ def job_arith(res, form, op, na, nb):
         return
     if st == 'throw':
         confirm(res, PID, HARNESS, 'h_arith', mk({}), 'i32', 'arith', ORACLES, key + ':throw', f'{desc}: threw on valid operands'); return
-    if m.pending or m.taken: res.inc(f'{desc}: data-dependent control flow'); return
-    if r != na:
-        confirm(res, PID, HARNESS, 'h_arith', mk({}), 'i32', 'arith', ORACLES, key + ':length', f'{desc}: result length {r}'); return
-    out, ao, bo = outs[2], outs[3], outs[4]
-    low = Lower('REAL', abstract_int=True); L = lambda v: low(v) if isF(v) else z3.RealVal(Fraction(v))
-    Z = {x: z3.Real(x) for x in An + Bn + ['sre', 'sim']}
-    s = {'re': Z['sre'], 'im': Z['sim'], 'int': z3.Real(f'itofp_{sint.e.get_id()}')}
-    sol = z3.Solver(); sol.set('timeout', 60000)
-    pairs = operands(form, na, nb, [Z[x] for x in An], [Z[x] for x in Bn], s)
-    for i, (a, b) in enumerate(pairs):
-        if kb in ('n', 'p'): exp = (-a[0], -a[1]) if kb == 'n' else a; pre = []
-        else:
-            exp = c_op(op, a, b); pre = [b[0] * b[0] + b[1] * b[1] != 0] if op == 3 else []
-        for c in range(wr):
-            sol.push(); sol.add(*pre); sol.add(L(out[wr * i + c]) != exp[c]); t0 = time.time(); rr = sol.check(); res.solver_s += time.time() - t0; res.queries += 1
-            if rr == z3.unsat: res.ob(True, 'NRA', f'{desc}: forall operands. result[{i}].{"re" if c == 0 else "im"} == field formula')
-            elif rr == z3.sat:
-                mdl = model_dict(sol); sol.pop()
-                confirm(res, PID, HARNESS, 'h_arith', mk(mdl), 'i32', 'arith', ORACLES, key + ':value', f'{desc}: element {i} differs from the field formula'); return
-            else: res.inc(f'{desc}: query unknown')
-            sol.pop()
-    # value semantics: non-compound operators leave operand storage bit-identical (UF: same DAG node)
-    if not comp and kb not in ('self', 'self0'):
-        same = all(x is y for x, y in zip(ao[:na * wa], A)) and (kb not in ('aR', 'aC') or all(x is y for x, y in zip(bo[:nb * wb], B)))
-        if same: res.ob(True, 'UF', f'{desc}: operands bit-unchanged after the operation')
-        else: confirm(res, PID, HARNESS, 'h_arith', mk({}), 'i32', 'arith', ORACLES, key + ':operand-modified', f'{desc}: an operand of a non-compound operator was modified')
+    def decide(m, r, outs, pcs, tag):
+        if r != na:
+            confirm(res, PID, HARNESS, 'h_arith', mk({}), 'i32', 'arith', ORACLES, key + ':length', f'{desc}: result length {r}'); return False
+        out, ao, bo = outs[2], outs[3], outs[4]
+        low = Lower('REAL', abstract_int=True); L = lambda v: low(v) if isF(v) else z3.RealVal(Fraction(v))
+        Z = {x: z3.Real(x) for x in An + Bn + ['sre', 'sim']}
+        s = {'re': Z['sre'], 'im': Z['sim'], 'int': z3.Real(f'itofp_{sint.e.get_id()}')}
+        sol = z3.Solver(); sol.set('timeout', 60000); sol.add(*pcs)
+        pairs = operands(form, na, nb, [Z[x] for x in An], [Z[x] for x in Bn], s)
+        for i, (a, b) in enumerate(pairs):
+            if kb in ('n', 'p'): exp = (-a[0], -a[1]) if kb == 'n' else a; pre = []
+            else:
+                exp = c_op(op, a, b); pre = [b[0] * b[0] + b[1] * b[1] != 0] if op == 3 else []
+            for c in range(wr):
+                sol.push(); sol.add(*pre); sol.add(L(out[wr * i + c]) != exp[c]); t0 = time.time(); rr = sol.check(); res.solver_s += time.time() - t0; res.queries += 1
+                if rr == z3.unsat: res.ob(True, 'NRA', f'{desc}{tag}: forall operands. result[{i}].{"re" if c == 0 else "im"} == field formula')
+                elif rr == z3.sat:
+                    mdl = model_dict(sol); sol.pop()
+                    confirm(res, PID, HARNESS, 'h_arith', mk(mdl), 'i32', 'arith', ORACLES, key + ':value', f'{desc}: element {i} differs from the field formula'); return False
+                else: res.inc(f'{desc}: query unknown')
+                sol.pop()
+        # value semantics: non-compound operators leave operand storage bit-identical (UF: same DAG node)
+        if not comp and kb not in ('self', 'self0'):
+            same = all(x is y for x, y in zip(ao[:na * wa], A)) and (kb not in ('aR', 'aC') or all(x is y for x, y in zip(bo[:nb * wb], B)))
+            if same: res.ob(True, 'UF', f'{desc}: operands bit-unchanged after the operation')
+            else: confirm(res, PID, HARNESS, 'h_arith', mk({}), 'i32', 'arith', ORACLES, key + ':operand-modified', f'{desc}: an operand of a non-compound operator was modified')
+        return True
+    if m.pending or m.taken:
+        # the code branches on operand values (e.g. a fast path for axis-aligned divisors): every feasible path is decided under its own path condition
+        def setup(mm):
+            args = []; ptrs = []
+            for k, v in spec:
+                if k == 'pf64': q_ = mm.alloc_doubles(v, 'arg'); args.append(q_); ptrs.append((k, q_, len(v)))
+                else: args.append(v)
+            return args, ptrs
+        npth = 0
+        for p in explore(mod, '@h_arith', setup, max_paths=48):
+            npth += 1
+            if p.out == 'pathbudget': res.inc(f'{desc}: more than 48 data-dependent paths'); break
+            mdl = {}
+            if p.m is not None:
+                res.absorb(p.m)
+                try: mdl = p.m.check_model(z3.BoolVal(True))[1] or {}
+                except Exception: mdl = {}
+            if p.out != 'ret':
+                if not confirm(res, PID, HARNESS, 'h_arith', mk(mdl), 'i32', 'arith', ORACLES, key + ':path', f'{desc}: on a data-dependent path the call ends with {p.out} {str(p.err)[:120]}', suspect_is_inconclusive=False):
+                    res.inc(f'{desc}: data-dependent path ends with {p.out}')
+                continue
+            if not decide(p.m, p.ret, read_outs(p.m, p.ctx), list(p.m.pc), f' [data-dependent path {npth}, |pc|={len(p.m.pc)}]'): return
+        return
+    decide(m, r, outs, [], '')
 
 def expect_job(res, fn, spec_sym, ret_exp, out_exp, desc, key, mk_conc, theory='UF'):
     """run fn symbolically over all paths; each path: ret == ret_exp(path) and outputs identical (same DAG nodes) to out_exp(path). Violations replay with the exact oracle."""
